@@ -476,6 +476,61 @@ def specSelected (r : Roi) (xc yc : Option (List Int)) (pre : Option Affine)
     | some p => roiContains r p
     | none => false
 
+/-- The element's plotted position lies on the region's boundary (the property excludes it). -/
+def specOnBoundary (r : Roi) (xc yc : Option (List Int)) (pre : Option Affine) (e : Elem) : Bool :=
+  match specPoint r xc yc pre e with
+  | some p => onBoundary r p
+  | none => false
+
+/-- Regions that take the "polygon-like" branches when an axis is categorical. -/
+def isPolygonLike : Roi → Bool → Bool
+  | .range _ _ _, usePre => usePre
+  | .rect _ _ _ _ _ s, _ => decide (s ≠ 0)
+  | .categorical _, _ => false
+  | _, _ => true
+
+def Roi.isCategorical : Roi → Bool
+  | .categorical _ => true
+  | _ => false
+
+def Roi.isRange : Roi → Bool
+  | .range _ _ _ => true
+  | _ => false
+
+def Roi.isPoly : Roi → Bool
+  | .poly _ => true
+  | _ => false
+
+/-- `(c, s)` is a unit vector (rectangle / ellipse). -/
+def Roi.unitOk : Roi → Bool
+  | .rect _ _ _ _ c s => decide (c * c + s * s = 1)
+  | .ellipse _ _ _ _ c s => decide (c * c + s * s = 1)
+  | _ => true
+
+/-- A value fits its axis: a label of the category list on a categorical axis, a number (or NaN)
+on a numeric one. -/
+def valOk (cats : Option (List Int)) : Val → Bool
+  | .lab l => match cats with | some cs => cs.contains l | none => false
+  | .num _ => cats.isNone
+
+/-- Category lists are sorted and duplicate free (they come from `np.unique`). -/
+def catsOk : Option (List Int) → Bool
+  | none => true
+  | some cs => strictSorted cs
+
+/-- Hypothesis of the main theorem `roi_selection`: well-kinded inputs as the viewers produce
+them, and — when exactly one axis is categorical and the region goes through its polygon — the
+region is a polygon (for circles / ellipses / rotated rectangles the statement proved is about
+`to_polygon()`, see `polygonised_cat_num`). -/
+def inScope (r : Roi) (xc yc : Option (List Int)) (usePre : Bool) (pre : Option Affine) (e : Elem) : Bool :=
+  catsOk xc && catsOk yc && valOk xc e.x && valOk yc e.y && r.unitOk &&
+  -- a pretransform is attached only to a numeric-numeric `RoiSubsetState` requested with use_pretransform
+  (pre.isNone || (usePre && xc.isNone && yc.isNone)) &&
+  -- categorical regions act on a categorical x axis
+  (!r.isCategorical || xc.isSome) &&
+  -- exactly one categorical axis + polygon-like region: proved for polygons
+  (!(isPolygonLike r usePre && (xc.isSome != yc.isSome)) || r.isPoly)
+
 /-- Element in the boundary band (excluded from the comparison). -/
 def specNear (ε : Rat) (r : Roi) (xc yc : Option (List Int)) (pre : Option Affine)
     (e : Elem) : Bool :=
